@@ -1,5 +1,6 @@
 CONSTANTS
   Genesis = 0
+  Unavailable = 999999
   MaxTx = 3
   MaxGen = 4
   MaxActive = 2
